@@ -56,7 +56,7 @@ def plan(tier):
 def generate(rng, tier):
     lines = []
     for i in range(rng.randrange(1, 6)):
-        k = rng.choice(["str", "sum", "var", "macro", "loop", "nonl", "name", "argc", "sib", "err", "reader", "uni", "hook"])
+        k = rng.choice(["str", "sum", "var", "macro", "loop", "nonl", "name", "argc", "sib", "err", "reader", "uni", "hook", "sibrt"])
         lines.append({"k": k, "a": rng.randrange(100), "b": rng.randrange(100)})
     end = rng.choice(["none", "none", "exit", "exit0", "exitmsg", "raise", "reader", "compile", "none", "raise_os", "raise_os",
                       "exitnone", "raise_os"])
@@ -69,7 +69,7 @@ def generate(rng, tier):
     return {"lines": lines, "end": end, "code": rng.choice([2, 3, 7, 42, 255]), "args": args, "pre": pre, "order": order,
             "file_as": rng.choice(["plain", "dot", "abs", "dashdash"]),
             "spell": rng.choice(["plain", "plain", "cluster", "attached", "attached_eq"]),
-            "os_kind": rng.randrange(14), "run_pyc": rng.random() < 0.3, "m_hyphen": rng.random() < 0.3}
+            "os_kind": rng.randrange(14), "run_pyc": rng.random() < 0.3, "alt_ext": rng.choice([None, None, None, "", "", ".txt", ".hyx"]), "m_hyphen": rng.random() < 0.3}
 
 
 def render(desc):
@@ -110,6 +110,10 @@ def render(desc):
             # a sibling module of the working directory: function import and macro require must work in every mode
             src.append(f"(import SIBLING [sf]) (require SIBLING [sm])\n(print (sm (sf {a})))")
             out.append(str([a + 1, "sib"]))
+        elif k == "sibrt":
+            # ... and the required macro must also be there at RUN time (hy.eval looks it up in the running module)
+            src.append(f"(require SIBLING [sm :as rsm{i}])\n(print (hy.eval '(rsm{i} {a})))")
+            out.append(str([a, "sib"]))
         elif k == "err":
             src.append(f'(print "e{a}" :file sys.stderr)')
             errs.append(f"e{a}")
@@ -192,6 +196,7 @@ def execute(desc):
         f.write('(defn sf [x] (+ x 1))\n(defmacro sm [x] `[~x "sib"])\n')
     pyc = importlib.util.cache_from_source(path)
     pyc_copy = os.path.join(root, modname + "_bc.pyc")
+    alt_path = os.path.join(root, modname + "_alt" + (desc.get("alt_ext") or ""))
     viols, events = [], []
     faults = {"abnormal_program_end": int(desc["end"] not in ("none",)), "option_like_argument": sum(a.startswith("-") for a in desc["args"])}
     probes = {"invocations": 0, "cache_cold": 0, "cache_warm": 0, "pyc_present_after_cold_run": 0}
@@ -218,6 +223,9 @@ def execute(desc):
                 given = {"plain": modname + ".hy", "dot": "./" + modname + ".hy", "abs": path, "dashdash": modname + ".hy"}[fa]
                 argv = ["hy"] + pre + (["--"] if fa == "dashdash" else []) + [given] + args
                 a0 = given
+            elif mode == "filealt":
+                argv = ["hy"] + pre + [os.path.basename(alt_path)] + args
+                a0 = os.path.basename(alt_path)
             elif mode == "filepyc":
                 argv = ["hy"] + pre + [os.path.basename(pyc_copy)] + args
                 a0 = os.path.basename(pyc_copy)
@@ -269,6 +277,8 @@ def execute(desc):
                 saw0 = head.get("ARGV0")
                 if mode == "filepyc" and saw0 is not None and os.path.realpath(os.path.join(root, saw0)) == os.path.realpath(pyc_copy):
                     saw0 = a0
+                if mode == "filealt" and saw0 is not None and os.path.realpath(os.path.join(root, saw0)) == os.path.realpath(alt_path):
+                    saw0 = a0
                 if mode == "file" and saw0 is not None:
                     # the docs only promise the arguments in (cut sys.argv 1); for a script hy passes the absolute
                     # path on to runpy, so argv[0] is accepted when it names the script, as given or resolved
@@ -304,6 +314,12 @@ def execute(desc):
                     probes["pyc_present_after_cold_run"] += 1
                 probes["cache_warm"] += 1
                 invoke(mode, "warm")
+                if mode == "file" and desc.get("alt_ext") is not None:
+                    # the same program under a name without suffix / with a foreign suffix: still a Hy script
+                    probes["alt_suffix_file_runs"] = probes.get("alt_suffix_file_runs", 0) + 1
+                    shutil.copyfile(path, alt_path)
+                    invoke("filealt", "alt")
+                    invoke("filealt", "alt-warm")
                 if mode == "file" and desc.get("run_pyc") and os.path.exists(pyc) and not early:
                     # `hy FILE` where FILE is the byte-compiled program (as `python prog.pyc`)
                     # (a copy next to the program, so that the script directory -- sys.path[0] -- is the same)
@@ -342,6 +358,8 @@ def shrink(desc):
         yield dict(desc, spell="plain")
     if desc.get("run_pyc"):
         yield dict(desc, run_pyc=False)
+    if desc.get("alt_ext") is not None:
+        yield dict(desc, alt_ext=None)
     for i in range(len(desc["order"])):
         if len(desc["order"]) > 1:
             yield dict(desc, order=desc["order"][:i] + desc["order"][i + 1:])
